@@ -140,6 +140,13 @@ def is_pure_stmt(st):
             name = dotted(v.func)
             if name in ('util.wsgi_path_item', 'req.GET.get'):
                 return True
+    # try: <pure reads> except <...>: raise webob.exc.HTTPBadRequest(...)   -- may reject, cannot have an effect
+    if isinstance(st, ast.Try) and not st.orelse and not st.finalbody and all(is_pure_stmt(s) for s in st.body):
+        for h in st.handlers:
+            if not (len(h.body) == 1 and isinstance(h.body[0], ast.Raise) and isinstance(h.body[0].exc, ast.Call)
+                    and dotted(h.body[0].exc.func) == 'webob.exc.HTTPBadRequest'):
+                return False
+        return True
     return False
 
 
